@@ -222,6 +222,16 @@ def doCborBlock (h : String) : String :=
     | none => "undecodable\t-"
     | some v => s!"{Bytes.toHex (Cbor.encodeCanon v)}\t-"
 
+/-- `wire`: the root block bytes the format model writes for each item's fields -/
+def doWire (items : String) : String :=
+  match Lean.Json.parse items with
+  | .ok (.arr xs) =>
+    let outs := xs.toList.map fun j => match WireJson.itemBytes j with
+      | .ok h => h
+      | .error e => s!"bad:{e}"
+    "[" ++ " ".intercalate outs ++ "]\t-"
+  | _ => bad "wire items"
+
 /-- `cost`: number of signature verifications. The property is an upper bound, so fewer
 verifications than the model's un-memoised search is agreement; more is not. -/
 def doCost (world impl : String) : String :=
@@ -358,6 +368,8 @@ def handle (line : String) : String :=
      | .error e => s!"bad-op:{e}") ++ "\t-"
   | ["cost", world, impl] => doCost world impl
   | ["cbor", v, _] => doCbor v
+  | ["wire", _, items, _] => doWire items
+  | ["wire", _, _, _, impl] => s!"{impl}\t-"
   | ["cborblock", h, _, _] => doCborBlock h
   | ["bsconc", _, _, _, _, _, impl] => (if impl.startsWith "consistent:" then impl else "consistent") ++ "\t-"
   | ["req", _, impl] => (if impl.startsWith "status:" || impl == "error" || impl.startsWith "skip:" then impl else "status-or-error") ++ "\t-"
